@@ -25,7 +25,7 @@ ASSUMPTIONS = ['base documents carry quote-free comments (own-line and trailing,
                'word-like stray tokens are not in the catalogue: they are frequently valid DBML in context',
                'faults are placed between the writer\'s tokens, never inside a literal, name or type']
 KINDS = ['stray', 'del_struct', 'extra_struct', 'unterminated', 'no_type', 'unknown_setting', 'bad_index_type',
-         'bad_operator', 'bad_action', 'bad_colour', 'garbage_end', 'garbage_start', 'truncate']
+         'bad_operator', 'bad_action', 'bad_colour', 'garbage_end', 'garbage_start', 'truncate', 'literal_as_name']
 FLOORS = {'quick': {f'kind:{k}': 15 for k in KINDS}, 'thorough': {f'kind:{k}': 300 for k in KINDS}}
 STRAY = ['@', '%', ';', '=', '!', '~', '^', '&', '|', '?', '$', '@@', '=;']
 SETTING_KINDS = {'column', 'index', 'enum_item', 'table_open', 'group_open', 'ref_short', 'ref_body', 'settings_cont'}
@@ -150,6 +150,16 @@ def fault(draw, lines, eol='\n'):
             return None
         i, j = draw(st.sampled_from(c))
         lines[i].toks[j].text = draw(st.sampled_from(['#ff', '#ffff', '#12345', '#1234567', '#ggg', 'fff', '#', '#f-f']))
+    elif kind == 'literal_as_name':
+        # an identifier is a word or a double-quoted string: a backtick expression, a single- or triple-quoted
+        # string or a colour in its place is not DBML (index subjects, which may be expressions, are left alone)
+        name_lines = {'table_open', 'group_open', 'enum_open', 'sticky_open', 'project_open', 'column', 'enum_item', 'group_item',
+                      'ref_short', 'ref_open', 'ref_body', 'project_field', 'table_prop'}
+        c = toks_where(lambda l, t: l.kind in name_lines and t.cls in ('name', 'propkey'))
+        if not c:
+            return None
+        i, j = draw(st.sampled_from(c))
+        lines[i].toks[j].text = draw(st.sampled_from(['`users`', '`a b`', "'users'", "'''users'''", '#fff', '`x [\n y ]\n`', '``']))
     elif kind == 'garbage_end':
         lines.append(Line('fault', (), [Tok(draw(st.sampled_from(STRAY + ['}', ']', '{', '['])), 'fault')]))
     elif kind == 'garbage_start':
